@@ -422,6 +422,16 @@ func c29Step(in *c29Inst, ref *c29Ref, op c29Op) []c29Verdict {
 	return bad
 }
 
+// c29Guard turns a panic of the code under test into a violation carrying the path.
+func c29Guard(op c29Op, f func() []c29Verdict) (bad []c29Verdict) {
+	defer func() {
+		if e := recover(); e != nil {
+			bad = append(bad, c29Verdict{"panic:" + op.Op, fmt.Sprintf("%v made the code under test panic: %v", op, e)})
+		}
+	}()
+	return f()
+}
+
 func c29CopyOrNil(m map[string]interface{}) map[string]interface{} {
 	if m == nil {
 		return nil
@@ -630,8 +640,9 @@ func c29Explore(r *eng.Run, sp c29Space) {
 				if op.Op == c29Set {
 					nWritesBefore = len(ref.txs[op.Tx].writes)
 				}
-				bad := c29Step(in, ref, op)
-				bad = append(bad, c29Observe(in, ref, sp.keys)...)
+				bad := c29Guard(op, func() []c29Verdict {
+					return append(c29Step(in, ref, op), c29Observe(in, ref, sp.keys)...)
+				})
 				lt++
 				for _, t := range in.txs {
 					if t != nil {
@@ -749,8 +760,11 @@ func TestVerifC29(t *testing.T) {
 		}
 		sp := c29Space{name: c.Space, ntx: ntx, keys: keys}
 		for rep := 0; rep < 5; rep++ {
-			in, ref, bad := c29Run(sp, c.Path, false)
-			bad = append(bad, c29Observe(in, ref, keys)...)
+			in, ref, _ := c29Run(sp, c.Path[:len(c.Path)-1], false)
+			last := c.Path[len(c.Path)-1]
+			bad := c29Guard(last, func() []c29Verdict {
+				return append(c29Step(in, ref, last), c29Observe(in, ref, keys)...)
+			})
 			if rep == 0 {
 				got, have := in.committedConfig()
 				fmt.Printf("replay: %s\n  committed: %s (reference %s)\n  revisions: %s\n", c29Trace(c.Path), c29Canon(got, have), c29Canon(ref.committed, ref.committed != nil), c29RevKeys(in.revisionConfigs()))
@@ -784,7 +798,7 @@ func TestVerifC29(t *testing.T) {
 			{name: "2tx", ntx: 2, keys: c29AllKeys, vals: []int{0, 1, 2, 3, 4}, seqLen: 5},
 			{name: "2tx-deep", ntx: 2, keys: []string{"a", "a.b"}, vals: []int{0, 1, 2}, seqLen: 8},
 			{name: "revisions", ntx: 2, keys: []string{"a", "a.b", "d"}, vals: []int{0, 1, 2}, revs: []int{1, 2}, seqLen: 6},
-			{name: "3tx", ntx: 3, keys: c29AllKeys, vals: []int{0, 1, 2, 3}, seqLen: 5},
+			{name: "3tx", ntx: 3, keys: c29AllKeys, vals: []int{0, 1, 2, 3}, seqLen: 4},
 		}
 	}
 	bounds := map[string]interface{}{}
